@@ -324,6 +324,17 @@ PLANS = {
                      "recomputes Levels 1-3 from the raw projected slots. distinct non-trivial = distinct (triangulation, "
                      "applied fault list) with at least one fault applied",
                 nontrivial=lambda e: ((e.get("tag"), json.dumps(e["args"].get("faults"))) if e["ev"] == "Faulted" and not e["args"].get("clean") else None)),
+    "C19": dict(level="model_checking",
+                families=[("extreme", 8, 16), ("insert", 4, 16), ("flips", 4, 16), ("remove", 4, 16), ("repair", 4, 16),
+                          ("queries", 4, 16), ("construct", 4, 16), ("faults", 2, 8)],
+                rule="every public call of every history of the other families (smaller share in the quick tier) plus an "
+                     "adversarial family - lattice histories at scales 2^+-60..2^+-340, NaN / +inf / -inf at every entry "
+                     "point (insert, insert_with_statistics, flip_k1_insert, locate, hull queries, batch construction), "
+                     "mixed raw magnitudes 1e-300..1e300 - runs under catch_unwind and a watchdog (30 s quick / 120 s "
+                     "thorough per call); no action of any trace specification accepts a panic or timeout event, work "
+                     "counters are checked against the transcribed budgets (locate steps, repair flips, insertion attempts). "
+                     "distinct non-trivial = distinct public calls executed (event lines)",
+                nontrivial=lambda e: (e["ev"], e.get("tag"), json.dumps(e.get("args"), sort_keys=True)[:200]) if e["ev"] != "Reset" else None),
     "C09": dict(level="model_checking", families=[("insert", 8, 16)],
                 stages=[lambda c, v: stage_mc("MC_Caches.tla", ("MC_Caches_fixed.cfg" if c.tier == "thorough" else "MC_Caches_fixed_quick.cfg") if edit_invalidates() else "MC_Caches_pinned.cfg",
                                               expect_violation=None if edit_invalidates() else ["IndexComplete", "NoDuplicateAccepted"])(c, v),
